@@ -9,6 +9,7 @@ import GoSandbox.Model.DriverC08
 import GoSandbox.Model.DriverC04
 import GoSandbox.Model.DriverC06
 import GoSandbox.Model.DriverC01
+import GoSandbox.Model.DriverC10
 
 open GoSandbox
 
@@ -23,6 +24,7 @@ def dispatch (ws : List String) : Option String :=
     else if cmd.startsWith "c04." then Driver.C04.handle ws
     else if cmd.startsWith "c06." then Driver.C06.handle ws
     else if cmd.startsWith "c01." then Driver.C01.handle ws
+    else if cmd.startsWith "c10." then Driver.C10.handle ws
     else if cmd.startsWith "c07." then Driver.C07.handle ws
     else none
 
